@@ -125,11 +125,11 @@ impl<'b> Host for PoolHost<'b> {
     }
 }
 
-fn generate(vs: u64, idx: u64) -> Scenario {
-    let mut scn = simcore::c12::generate(vs, idx, "C18");
+fn generate(vs: u64, idx: u64, thorough: bool) -> Scenario {
+    let mut scn = simcore::c12::generate(vs, idx, "C18", thorough);
     let mut rng = Rng::new(run_seed(vs, "C18-workers", idx));
     scn.exec.workers = 2 + rng.below(3) as u8;
-    scn.exec.worker_picks = (0..400).map(|_| rng.below(scn.exec.workers as u64) as u8).collect();
+    scn.exec.worker_picks = (0..1400).map(|_| rng.below(scn.exec.workers as u64) as u8).collect();
     scn
 }
 
@@ -169,7 +169,7 @@ fn check(scn: &Scenario, c: &mut Counters) -> Verdict {
 fn c18_def() -> PropDef {
     PropDef {
         id: "C18",
-        generate: |vs, idx, _| Record::Sim(generate(vs, idx)),
+        generate: |vs, idx, tier| Record::Sim(generate(vs, idx, tier == simcore::driver::Tier::Thorough)),
         check: |rec, c| match rec {
             Record::Sim(s) => check(s, c),
             _ => Verdict::harness("wrong record kind".into()),
